@@ -18,6 +18,7 @@
 #include <datatypes/heap.h>
 #include <lp/lp.h>
 #include <mm/msg_allocator.h>
+#include <verif/rsv.h>
 
 #include <stdalign.h>
 #include <stdatomic.h>
@@ -66,6 +67,11 @@ void msg_queue_init(void)
  */
 void msg_queue_fini(void)
 {
+#ifdef ROOT_SIM_CORE_VERIF
+	for(array_count_t i = 0; i < heap_count(mqp); ++i)
+		RSV_EV(RSV_EV_QUEUE_LEFT, heap_items(mqp)[i].m, 0, 0, heap_items(mqp)[i].t);
+#endif
+
 	for(array_count_t i = 0; i < heap_count(mqp); ++i)
 		msg_allocator_free(heap_items(mqp)[i].m);
 
@@ -73,6 +79,7 @@ void msg_queue_fini(void)
 
 	struct lp_msg *m = atomic_load_explicit(&queues[rid].list, memory_order_relaxed);
 	while(m != NULL) {
+		RSV_EV(RSV_EV_QUEUE_LEFT, m, 1, 0, m->dest_t);
 		msg_allocator_free(m);
 		m = m->next;
 	}
@@ -91,6 +98,7 @@ void msg_queue_global_fini(void)
  */
 static inline void msg_queue_insert_queued(void)
 {
+	RSV_YIELD(RSV_SITE_QUEUE_SWAP);
 	struct lp_msg *m = atomic_exchange_explicit(&queues[rid].list, NULL, memory_order_acquire);
 	while(m != NULL) {
 		struct q_elem qe = {.t = m->dest_t, .m = m};
@@ -132,7 +140,9 @@ simtime_t msg_queue_time_peek(void)
 void msg_queue_insert(struct lp_msg *msg)
 {
 	_Atomic(struct lp_msg *) *list_p = &queues[lid_to_rid(msg->dest)].list;
+	RSV_YIELD(RSV_SITE_QUEUE_INSERT);
 	msg->next = atomic_load_explicit(list_p, memory_order_relaxed);
+	RSV_YIELD(RSV_SITE_QUEUE_INSERT_CAS);
 	while(unlikely(!atomic_compare_exchange_weak_explicit(list_p, &msg->next, msg, memory_order_release,
 	    memory_order_relaxed)))
 		spin_pause();
